@@ -1665,6 +1665,134 @@ def run_record13(ctx, P):
             audit_aes(ctx, rf.aead.aes, fam)
 
 
+# ============================================== live TLS 1.3 key schedule ===
+
+def run_ks13(ctx, P):
+    """every Derive-Secret call of a live TLS 1.3 handshake uses the
+    transcript RFC 8446 7.1 prescribes for its label.  The transcript is
+    taken from what the two endpoints handed to their send functions (not
+    from the library's running hash); the library's derive_secret is
+    wrapped and each call's Transcript-Hash argument is located among the
+    digests of the prefixes of that independent transcript"""
+    import hashlib
+    from vt import flavours, pair as _pair
+    import tlslite.tlsconnection as TC
+    import tlslite.handshakehelpers as HH
+    sc = flavours.BY_NAME[P["sc"]]
+    label = "%s/C09/ks13/%s" % (P.get("rep", 0), sc.name)
+    boot.install_vclock(1_800_000_000.0)
+    boot.drbg.reseed(label + "/prep")
+    st = sc.prepare()
+    boot.vclock.advance(5.0)
+    boot.drbg.reseed(label + "/main")
+    p = _pair.Pair()
+    fl = sc.flavor(st)
+    msgs = []                      # (side, hs type, bytes) in send order
+
+    def tap(conn, side):
+        osend, oqueue = conn._sendMsg, conn._queue_message
+
+        def note(msg):
+            if getattr(msg, "contentType", None) == 22:
+                raw = bytes(msg.write())
+                if raw:
+                    msgs.append((side, raw[0], raw))
+
+        def _sendMsg(msg, randomizeFirstBlock=True, update_hashes=True):
+            if update_hashes:
+                note(msg)
+            return osend(msg, randomizeFirstBlock, update_hashes)
+
+        def _queue_message(msg):
+            note(msg)
+            return oqueue(msg)
+        conn._sendMsg = _sendMsg
+        conn._queue_message = _queue_message
+    tap(p.c, "c")
+    tap(p.s, "s")
+    calls = []
+    real = TC.derive_secret
+
+    def derive_secret(secret, label_, handshake_hashes, algorithm):
+        out = real(secret, label_, handshake_hashes, algorithm)
+        try:
+            d = None if handshake_hashes is None else \
+                bytes(handshake_hashes.digest(algorithm))
+            calls.append((bytes(label_), algorithm, d, bytes(secret),
+                          bytes(out)))
+        except Exception as e:   # noqa
+            calls.append(("monitor_error", repr(e)))
+        return out
+    TC.derive_secret = derive_secret
+    try:
+        tc, ts = p.handshake(fl)
+    finally:
+        TC.derive_secret = real
+    lc = sc.name
+    if tc.status != "done" or ts.status != "done":
+        ctx.inconc("ks13: honest %s handshake failed: %r %r" % (
+            sc.name, tc.exc, ts.exc))
+        return
+    if any(t == 2 and raw[6:38] == bytes.fromhex(
+            "cf21ad74e59a6111be1d8c021e65b891c2a211167abb8c5e079e09e2c8a8339c")
+           for _, t, raw in msgs):
+        ctx.count("ks13_hrr_skipped")     # synthetic message_hash transcript
+        return
+    # position of the landmarks in the independent transcript
+    def upto(pred):
+        for i, m in enumerate(msgs):
+            if pred(m):
+                return i + 1
+        return None
+    marks = {
+        "CH": upto(lambda m: m[0] == "c" and m[1] == 1),
+        "SH": upto(lambda m: m[0] == "s" and m[1] == 2),
+        "SF": upto(lambda m: m[0] == "s" and m[1] == 20),
+        "CF": upto(lambda m: m[0] == "c" and m[1] == 20),
+    }
+    want = {b"c hs traffic": "SH", b"s hs traffic": "SH",
+            b"c ap traffic": "SF", b"s ap traffic": "SF",
+            b"exp master": "SF", b"res master": "CF",
+            b"c e traffic": "CH", b"e exp master": "CH"}
+    names = {v: k for k, v in marks.items() if v}
+    for ent in calls:
+        if ent[0] == "monitor_error":
+            ctx.inconc("ks13 monitor: %s" % ent[1])
+            continue
+        lab, alg, d, secret, out = ent
+        if lab not in want or d is None:
+            continue
+        pos = None
+        for k in range(len(msgs) + 1):
+            if hashlib.new(alg, b"".join(m[2] for m in msgs[:k])
+                           ).digest() == d:
+                pos = k
+                break
+        exp = marks[want[lab]]
+        ctx.ev()
+        ctx.count("cmp:ks13")
+        ctx.cell("cell", "derive_secret|%s|%s" % (lab.decode(), lc))
+        if pos != exp:
+            last = None if not pos else "%s:%d" % (msgs[pos - 1][0],
+                                                   msgs[pos - 1][1])
+            viol(ctx, "key_schedule_transcript", "derive_secret",
+                 lab.decode(),
+                 {"scenario": sc.name, "label": lab,
+                  "transcript_ends_after": last if pos is not None else
+                  "(not a prefix of what was sent)",
+                  "expected_end": want[lab],
+                  "messages": ["%s:%d" % (a, b) for a, b, _ in msgs]},
+                 "Derive-Secret(., %r, .) used the transcript up to %s; "
+                 "RFC 8446 7.1 prescribes ClientHello..%s" % (
+                     lab.decode(), last, want[lab]))
+        else:
+            # and the value is Derive-Secret of exactly that transcript
+            ref = kdf.derive_secret(alg, secret, lab,
+                                    b"".join(m[2] for m in msgs[:exp]))
+            same(ctx, "ks13", "derive_secret", lab.decode(),
+                 "derive_secret_value", out, ref, None, lc)
+
+
 # ================================================================= cases ===
 
 RUNNERS = {
@@ -1674,7 +1802,7 @@ RUNNERS = {
     "aead": run_aead, "aead_neg": run_aead_neg, "hmac": run_hmac,
     "prf": run_prf, "calc_key": run_calc_key, "exporter": run_exporter,
     "hkdf": run_hkdf, "ssl3": run_ssl3, "record": run_record,
-    "record13": run_record13,
+    "record13": run_record13, "ks13": run_ks13,
 }
 
 
@@ -1689,6 +1817,12 @@ def make_cases(ctx):
     def add(fam, cid, **p):
         p["fam"] = fam
         out.append(("%s:%s" % (fam, cid), p))
+    for scn_ in ("tls13-rsa", "tls13-ecdsa", "tls13-clientauth",
+                 "tls13-clientauth-ecdsa-nocert", "tls13-psk_dhe",
+                 "tls13-psk_ke", "tls13-psk-sha384", "tls13-resume-ticket",
+                 "tls13-alpn-tickets", "tls13-x448-ffdhe"):
+        for rep in range(1 if q else 3):
+            add("ks13", "%s#%d" % (scn_, rep), sc=scn_, rep=rep)
     for rep in range(reps):
         r = "" if rep == 0 else "#%d" % rep
         # --- AES block / CBC / CTR
@@ -1894,7 +2028,8 @@ def run(ctx):
 
 REQUIRED = ["aes_block", "aes_cbc", "aes_ctr", "des3", "rc4", "chacha20",
             "poly1305", "gcm", "ccm", "ccm8", "chachapoly", "hmac", "prf",
-            "calc_key", "exporter", "hkdf", "ssl3", "record", "record13"]
+            "calc_key", "exporter", "hkdf", "ssl3", "record", "record13",
+            "ks13"]
 
 
 def finalize(m, tier):
